@@ -17,11 +17,11 @@ CMD=$(python3 -c "import json;print(json.load(open('$SRC/meta.json'))['demo_cmd'
 mkdir -p $(dirname $DEMO)
 if [ -d $SRC/demo ]; then for f in $SRC/demo/*; do if [ -d "$DEMO" ] || [[ "$DEMO" == */ ]]; then mkdir -p $DEMO; cp -r $f $DEMO/; else cp $f $(dirname $DEMO)/; fi; done; fi
 echo "== demo WITHOUT change: $CMD"
-( eval "timeout 900 $CMD" ) > /tmp/sv-$ID.without.log 2>&1; W=$?
+( timeout 1200 bash -c "$CMD" ) > /tmp/sv-$ID.without.log 2>&1; W=$?
 echo "exit=$W"
 git apply $SRC/patch.diff || { echo "PATCH DOES NOT APPLY"; exit 2; }
 echo "== demo WITH change"
-( eval "timeout 900 $CMD" ) > /tmp/sv-$ID.with.log 2>&1; C=$?
+( timeout 1200 bash -c "$CMD" ) > /tmp/sv-$ID.with.log 2>&1; C=$?
 echo "exit=$C"
 echo "== build"
 go build -overlay /tmp/sandbox-hints/base-overlay.json ./... 2>&1 | grep -v "ld:\|^#" | tail -3
